@@ -21,6 +21,26 @@ type CtxObj struct {
 	ValFrom  *RefV // where Value lookups continue
 	Root     bool
 	Deadline *Cell // Bool: ended by its deadline (Err is DeadlineExceeded)
+	// Cancelable: created by WithCancel / WithDeadline / WithTimeout (it can end on its own account); a
+	// context that is not cancelable and has no cancelable ancestor has a nil Done channel
+	Cancelable bool
+}
+
+// ctxNever: the condition under which context x can never end (no cancelable context on its parent chain).
+func ctxNever(x *CtxObj, depth int) *Term {
+	if x.Cancelable {
+		return TS.False
+	}
+	if x.Parent == nil || depth > 32 {
+		return TS.True
+	}
+	cs := []*Term{}
+	for _, a := range x.Parent.Alts {
+		if p, ok := a.R.(*CtxObj); ok {
+			cs = append(cs, Or(Not(a.G), ctxNever(p, depth+1)))
+		}
+	}
+	return And(cs...)
 }
 
 type AfterReg struct {
@@ -67,7 +87,7 @@ func (e *Engine) newCtx(c *Config, kind string, parent *RefV, valFrom *RefV) *Ct
 		return x
 	}
 	o := newObject(name)
-	x := &CtxObj{Obj: o, Name: name, Parent: parent, ValFrom: valFrom}
+	x := &CtxObj{Obj: o, Name: name, Parent: parent, ValFrom: valFrom, Cancelable: kind == "cancel" || kind == "deadline"}
 	x.Own = &Cell{T: types.Typ[types.Bool], Obj: o, Val: TS.False, Path: ".cancelled"}
 	o.Root = &Cell{T: ctxModelType, Obj: o, Val: refTo(x)}
 	e.objs[name] = o
@@ -450,12 +470,19 @@ func init() {
 		}}
 	models["(verifCtx).Done"] = &Model{Plain: func(cc *CallCtx) Value {
 		x := ctxOf(cc)
+		never := ctxNever(x, 0)
+		if never.IsTrue() {
+			return nilRef() // Background, TODO, WithValue / WithoutCancel of those: Done() is nil
+		}
 		if x.DoneCh == nil {
 			x.DoneCh = cc.e.newChan(x.Name+".done", types.NewStruct(nil, nil), 0)
 			x.DoneCh.Kind = "ctxdone"
 			x.DoneCh.Ctx = x
 		}
-		return refTo(x.DoneCh)
+		if never.IsFalse() {
+			return refTo(x.DoneCh)
+		}
+		return iteValue(never, nilRef(), refTo(x.DoneCh))
 	}}
 	models["(verifCtx).Value"] = &Model{Plain: func(cc *CallCtx) Value {
 		x := ctxOf(cc)
